@@ -68,10 +68,9 @@ impl LinuxSllHeader {
             buffer
         };
 
-        Ok(
-            // SAFETY: Safe as the buffer contains exactly the needed LinuxSllHeader::LEN bytes.
-            unsafe { LinuxSllHeaderSlice::from_slice_unchecked(&buffer) }.to_header(),
-        )
+        // the content has to be validated (packet type & hardware id are
+        // not guaranteed to be supported values)
+        LinuxSllHeader::from_bytes(buffer).map_err(err::ReadError::LinuxSll)
     }
 
     /// Serialize the header to a given slice. Returns the unused part of the slice.
